@@ -56,9 +56,9 @@ Definition grp (user : list nat) (hashes : list nat) :=
 VS_KINDS = ['vs2', 'vs3', 'vs3fd', 'vs3fad', 'vs3out', 'vs4fdn', 'vsn']
 
 
-def gen_residue(rng, resname, tag):
+def gen_residue(rng, resname, tag, nested=False):
     """a residue definition: atoms (name, atype), bonds (i, j, length), angles, one optional virtual site"""
-    n = rng.randint(2, 5)
+    n = rng.randint(4, 5) if nested else rng.randint(2, 5)
     atoms = [{'name': f'{tag}{k}', 'atype': rng.choice(sorted(systems.ATOMTYPES)), 'mass': 72.0} for k in range(n)]
     shape = rng.choice(['chain', 'branched', 'ring'] if n >= 3 else ['chain'])
     bonds = []
@@ -71,9 +71,12 @@ def gen_residue(rng, resname, tag):
     if shape == 'chain' and n >= 3 and rng.random() < 0.6:
         for k in range(n - 2):
             angles.append((k, k + 1, k + 2, rng.choice([100.0, 120.0, 140.0])))
+    impropers = []
+    if n >= 4 and (nested or rng.random() < 0.5):
+        impropers.append(tuple(rng.sample(range(n), 4)) + (rng.choice([0.0, 25.0, -25.0]),))
     vs = None
-    if rng.random() < 0.6:
-        kind = rng.choice([k for k in VS_KINDS if {'vs2': 2, 'vs3': 3, 'vs3fd': 3, 'vs3fad': 3, 'vs3out': 3, 'vs4fdn': 4, 'vsn': 2}[k] <= n])
+    if nested or rng.random() < 0.6:
+        kind = rng.choice(['vs2', 'vsn'] if nested else [k for k in VS_KINDS if {'vs2': 2, 'vs3': 3, 'vs3fd': 3, 'vs3fad': 3, 'vs3out': 3, 'vs4fdn': 4, 'vsn': 2}[k] <= n])
         need = {'vs2': 2, 'vs3': 3, 'vs3fd': 3, 'vs3fad': 3, 'vs3out': 3, 'vs4fdn': 4, 'vsn': rng.randint(2, n)}[kind]
         defining = rng.sample(range(n), need)
         params = {'vs2': [round(rng.uniform(0.1, 0.9), 3)], 'vs3': [round(rng.uniform(0.1, 0.5), 3), round(rng.uniform(0.1, 0.4), 3)],
@@ -84,14 +87,26 @@ def gen_residue(rng, resname, tag):
                   'vsn': []}[kind]
         atoms.append({'name': f'{tag}V', 'atype': rng.choice(sorted(systems.ATOMTYPES)), 'mass': 0.0})
         vs = {'kind': kind, 'site': n, 'atoms': defining, 'params': params, 'func': {'vs2': 1, 'vs3': 1, 'vs3fd': 2, 'vs3fad': 3, 'vs3out': 4, 'vs4fdn': 2, 'vsn': 1}[kind]}
-    return {'resname': resname, 'atoms': atoms, 'bonds': bonds, 'angles': angles, 'vs': vs}
+    vs2nd = None
+    if vs and vs['kind'] in ('vs2', 'vsn') and n >= 2 and (nested or rng.random() < 0.4):
+        # a site built on another site of an earlier kind (GROMACS and polyply construct kind by kind: n, 2, 3, 4);
+        # its section is written BEFORE the section of the site it depends on
+        kind = rng.choice(['vs3', 'vs3out', 'vs3fd'])
+        defining = [vs['site']] + rng.sample(range(n), 2)
+        rng.shuffle(defining)
+        params = {'vs3': [round(rng.uniform(0.1, 0.5), 3), round(rng.uniform(0.1, 0.4), 3)],
+                  'vs3fd': [round(rng.uniform(0.2, 0.8), 3), round(rng.uniform(0.1, 0.3), 3)],
+                  'vs3out': [round(rng.uniform(0.1, 0.5), 3), round(rng.uniform(0.1, 0.5), 3), round(rng.uniform(-2.0, 2.0), 3)]}[kind]
+        atoms.append({'name': f'{tag}W', 'atype': rng.choice(sorted(systems.ATOMTYPES)), 'mass': 0.0})
+        vs2nd = {'kind': kind, 'site': n + 1, 'atoms': defining, 'params': params, 'func': {'vs3': 1, 'vs3fd': 2, 'vs3out': 4}[kind]}
+    return {'resname': resname, 'atoms': atoms, 'bonds': bonds, 'angles': angles, 'impropers': impropers, 'vs': vs, 'vs2nd': vs2nd}
 
 
 def moltype_text(name, residues):
     """residues: list of residue definitions in chain order; consecutive residues bonded first atom to first atom"""
     out = ['[ moleculetype ]', f'{name} 1', '[ atoms ]']
     first, idx = [], 1
-    bonds, angles, vs_lines = [], [], {}
+    bonds, angles, vs_lines, dihedrals = [], [], {}, []
     for r, res in enumerate(residues):
         first.append(idx)
         for k, a in enumerate(res['atoms']):
@@ -100,8 +115,11 @@ def moltype_text(name, residues):
             bonds.append(f"{idx + i} {idx + j} 1 {l} 5000")
         for i, j, k, th in res['angles']:
             angles.append(f"{idx + i} {idx + j} {idx + k} 2 {th} 50")
-        vs = res['vs']
-        if vs:
+        for i, j, k, l, th in res.get('impropers', []):
+            dihedrals.append(f"{idx + i} {idx + j} {idx + k} {idx + l} 2 {th} 50")
+        for vs in (res.get('vs2nd'), res['vs']):          # the dependent site's section first
+            if not vs:
+                continue
             site = idx + vs['site']
             ats = ' '.join(str(idx + a) for a in vs['atoms'])
             ps = ' '.join(str(p) for p in vs['params'])
@@ -115,6 +133,8 @@ def moltype_text(name, residues):
     out += ['[ bonds ]'] + bonds
     if angles:
         out += ['[ angles ]'] + angles
+    if dihedrals:
+        out += ['[ dihedrals ]'] + dihedrals
     for sec, lines in vs_lines.items():
         out += [f'[ {sec} ]'] + lines
     return '\n'.join(out) + '\n'
@@ -131,6 +151,11 @@ def top_text(moltypes):
     return '\n'.join(out) + '\n'
 
 
+def nested_case(rng):
+    """one residue with an improper and a virtual site built on another virtual site"""
+    return {'defs': [gen_residue(rng, 'RN', 'N', nested=True)], 'moltypes': [('MA', [0, 0])], 'build': None}
+
+
 def gen_case(rng):
     ndef = rng.randint(2, 4)
     defs = []
@@ -141,7 +166,7 @@ def gen_case(rng):
     # same residue name and atom names, other bond graph (an isomer): must get its own template
     if rng.random() < 0.35:
         base = rng.choice(defs)
-        nreal = len(base['atoms']) - (1 if base['vs'] else 0)
+        nreal = len(base['atoms']) - (1 if base['vs'] else 0) - (1 if base.get('vs2nd') else 0)
         if nreal >= 3:
             perm = list(range(nreal))
             rng.shuffle(perm)
@@ -226,7 +251,7 @@ class Catch(logging.Handler):
             self.msgs.append(str(record.msg))
 
 
-def run_templates(case, wd):
+def run_templates(case, wd, fail_optimisation=False):
     from polyply.src.topology import Topology
     from polyply.src.generate_templates import GenerateTemplates
     from polyply.src.load_library import load_build_files
@@ -237,6 +262,13 @@ def run_templates(case, wd):
     logger = logging.getLogger('polyply')
     logger.addHandler(handler)
     sink = io.StringIO()
+    import polyply.src.generate_templates as gt
+    real_opt = gt.optimize_geometry
+    if fail_optimisation:
+        def failing(block, coords, inter_types=(), **kw):
+            ok, out = real_opt(block, coords, inter_types, **kw)
+            return False, out                       # the optimiser's verdict is an oracle: here it never succeeds
+        gt.optimize_geometry = failing
     try:
         with contextlib.redirect_stderr(sink), contextlib.redirect_stdout(sink):
             topology = Topology.from_gmx_topfile(tp, name='x')
@@ -248,6 +280,7 @@ def run_templates(case, wd):
         return {'error': f'{type(exc).__name__}: {exc}', 'log': handler.msgs}
     finally:
         logger.removeHandler(handler)
+        gt.optimize_geometry = real_opt
     out = {'log': handler.msgs, 'volumes': dict(topology.volumes), 'residues': [], 'templates': {}}
     for mol in topology.molecules:
         for node in mol.nodes:
@@ -343,14 +376,15 @@ def judge(case, out):
             if np.abs(pts - want).max() > 1e-9:
                 bad.append((f"the template given in the build file for {rd['resname']} is not the one used "
                             f"(max deviation {np.abs(pts - want).max():.4f}, files {'split' if b['split'] else 'single'})", None))
-        vs = rd['vs']
-        if vs and not user:
+        for vs in (rd['vs'], rd.get('vs2nd')):
+            if not vs or user:
+                continue
             site = np.array(t[names[vs['site']]])
             want = gmx_site(dict(vs, atoms=list(vs['atoms'])), {a: t[names[a]] for a in vs['atoms']})
             if np.abs(site - want).max() > 1e-6:
                 finding = 'F9' if vs['kind'] == 'vsn' and vs['func'] == 2 else None
                 bad.append((f"virtual site {names[vs['site']]} ({vs['kind']} func {vs['func']}) of {rd['resname']} sits at {site.round(5).tolist()}, "
-                            f"GROMACS constructs it at {np.array(want).round(5).tolist()}", finding))
+                            f"GROMACS constructs it at {np.array(want).round(5).tolist()} from its defining atoms", finding))
         if not user and not failed_blocks:
             for i, j, l in rd['bonds']:
                 dist = float(np.linalg.norm(pts[i] - pts[j]))
@@ -439,7 +473,8 @@ def run(ctx):
         ctx.note(str(exc)[:600])
         ctx.broken.append('correspondence:translator-validation (evaluation failed)')
     rng = ctx.rng
-    cases = [F9_CASE, F23_CASE] + [c for _, c in core.corpus_cases('C15')] + [gen_case(rng) for _ in range(ctx.n(40, 400))]
+    cases = [F9_CASE, F23_CASE] + [c for _, c in core.corpus_cases('C15')] + [nested_case(rng) for _ in range(ctx.n(10, 80))] + \
+        [gen_case(rng) for _ in range(ctx.n(40, 400))]
     exprs, keep = [], []
     with systems.Workdir() as wd:
         for case in cases:
@@ -453,6 +488,8 @@ def run(ctx):
             for d in {d for _, s in case['moltypes'] for d in s}:
                 if case['defs'][d]['vs']:
                     ctx.feature('vs_' + case['defs'][d]['vs']['kind'])
+                if case['defs'][d].get('vs2nd'):
+                    ctx.feature('vs_nested_' + case['defs'][d]['vs2nd']['kind'])
             if case['build']:
                 ctx.feature('build_file_split' if case['build']['split'] else 'build_file')
             if 'error' in out:
@@ -470,6 +507,21 @@ def run(ctx):
                     idx.setdefault(h, len(idx))
                 exprs.append(f"grp [] {lit([idx[h] for h in hashes], num='nat')}")
                 keep.append((case, hashes, idx))
+    # an optimisation that never succeeds is reported (warning) and the unoptimised template is used: no crash,
+    # and no template passes as optimised
+    with systems.Workdir() as wd:
+        for case in [gen_case(rng) for _ in range(ctx.n(3, 20))]:
+            case['build'] = None
+            out = run_templates(case, wd, fail_optimisation=True)
+            ctx.case(('failopt', json.dumps(case, sort_keys=True, default=str)), nontrivial=True)
+            ctx.feature('forced_optimisation_failure')
+            if 'error' in out:
+                ctx.violation('spec', f"template generation crashes when the optimisation does not succeed: {out['error']}", {'case': case, 'fail_optimisation': True})
+            elif not any('Failed to optimize' in m for m in out['log']):
+                ctx.violation('spec', "a template whose optimisation never succeeded is not reported as unoptimised", {'case': case, 'fail_optimisation': True})
+            else:
+                for msg, finding in judge(case, out)[:1]:
+                    ctx.violation('spec', f"C15 fails on the implementation: {msg}", {'case': case, 'fail_optimisation': True}, finding=finding)
     try:
         res = core.coq_eval_cases(ctx, 'grp', PRELUDE, exprs, chunk=100)
     except core.CoqEvalError as exc:
@@ -498,9 +550,10 @@ def replay(ctx, data):
     for d in case['defs']:
         d['bonds'] = [tuple(b) for b in d['bonds']]
         d['angles'] = [tuple(a) for a in d['angles']]
+        d['impropers'] = [tuple(a) for a in d.get('impropers', [])]
     case['moltypes'] = [(n, s) for n, s in case['moltypes']]
     with systems.Workdir() as wd:
-        out = run_templates(case, wd)
+        out = run_templates(case, wd, fail_optimisation=bool(data.get('fail_optimisation')))
     bad = judge(case, out)
     print('replay:', bad[:3] or 'statement satisfied')
     return 1 if bad else 0
